@@ -10,6 +10,7 @@ from .source import ClassDef, Extern, FuncDef, ModuleRef
 from .state import PathEnd, RaiseEx, ReturnEx
 from .types import (
     SV,
+    Ty,
     TBool,
     TInt,
     TList,
@@ -536,7 +537,8 @@ class CallMixin:
             frame = dict(zip(names, args))
             for k, v in kwargs.items():
                 if k not in con.params:
-                    raise Unsupported(f"{con.qualname}: unknown keyword {k}")
+                    self.res.drops.add(f"keyword '{k}' passed to {con.qualname} is outside its assumed contract (ignored)")
+                    continue
                 frame[k] = v
             for n in names:
                 if n not in frame:
@@ -546,6 +548,14 @@ class CallMixin:
                     frame[n] = d
         params = {}
         for n, t in con.params.items():
+            if isinstance(t, dict):
+                # declared **kwargs: what the call site passes, absent keys being absent
+                passed = frame.get(n)
+                items = dict(passed.items) if isinstance(passed, SDict) else {}
+                params[n] = SDict({k: items[k] if k in items else (z3.BoolVal(False), kt.fresh("absent_" + k)) for k, kt in t.items()})
+                continue
+            if not isinstance(t, Ty):
+                continue  # fixed by the contract when the body is verified (not a sort): irrelevant at call sites
             if n not in frame:
                 raise Unsupported(f"{con.qualname}: contract param {n} not bound")
             v = frame[n]
@@ -558,6 +568,8 @@ class CallMixin:
             self.oblige("call.pre", lift(con.requires(c0), TBool), node, f"precondition of {con.qualname}")
             self.assume(lift(con.requires(c0), TBool))
         # havoc
+        if self.in_quant is not None and con.modifies and con.modifies(c0):
+            raise Unsupported(f"call of {con.qualname} (which modifies state) inside a comprehension over a symbolic collection")
         for item in (con.modifies(c0) if con.modifies else []):
             key = item[0]
             self.materialise(key)
@@ -585,7 +597,13 @@ class CallMixin:
         result = None
         if i == 0:
             if con.returns is not None:
-                result = con.returns.fresh("ret_" + con.qualname.split(":")[-1].replace(".", "_"))
+                rname = "ret_" + con.qualname.split(":")[-1].replace(".", "_")
+                if self.in_quant is not None:
+                    # inside a comprehension over a symbolic collection the result depends on the element: a function of the bound index
+                    fn = z3.Function(f"{rname}!{self.fresh_id()}", z3.IntSort(), con.returns.sort())
+                    result = SV(fn(self.in_quant[0]), con.returns)
+                else:
+                    result = con.returns.fresh(rname)
                 if con.fresh_result and isinstance(con.returns, TRef):
                     self.st.pc.append(z3.Not(z3.IsMember(result.t, self.st.alloc)))
                     self.st.alloc = z3.SetAdd(self.st.alloc, result.t)
@@ -595,6 +613,7 @@ class CallMixin:
                 self.assume(lift(con.ensures(c1), TBool))
             if not self.feasible():
                 raise PathEnd()
+            self.proof_hints(con.qualname, node)
             if con.modifies is not None:
                 self.crash_point(node, con.qualname)
             return result
@@ -604,6 +623,20 @@ class CallMixin:
             c1 = Ctx(self, params, h0, self.view(), exc=ex)
             self.assume(lift(post(c1), TBool))
         raise RaiseEx(ex, None, node)
+
+    def proof_hints(self, callee, node):
+        """intermediate assertions supplied by the contract of the function under verification: each is an obligation
+        where it stands and an assumption afterwards (like an `assert` in an auto-active verifier)"""
+        top = self.cur_contract
+        if top is None or not top.hints or self.discovery or len(self.fn_stack) != 1:
+            return
+        for suffix, hint in top.hints.items():
+            if callee.endswith(suffix):
+                c = self.make_ctx(top)
+                c.loc = type(c.loc)(self.visible_locals())
+                f = lift(hint(c), TBool)
+                self.oblige("hint", f, node, f"proof hint after {callee}")
+                self.assume(f)
 
     def crash_point(self, node, what):
         """after a state-mutating call: the crash condition of the function under verification must hold"""
@@ -668,6 +701,13 @@ class CallMixin:
                     raise Unsupported("conditional key to map")
                 m = self.map_store(m, k, x)
             return m
+        if isinstance(v, Extern):
+            rt = t.elem if isinstance(t, TOpt) else t
+            if isinstance(rt, TRef):
+                # an object imported from a dependency (e.g. DEFAULT_CALLBACK): an opaque allocated reference
+                r = rt.fresh("ext_" + v.dotted.split(".")[-1])
+                self.st.pc.append(z3.IsMember(r.t, self.st.alloc))
+                return lift(r, t)
         if isinstance(v, (Closure, FuncDef)) :
             raise Unsupported(f"closure passed where {t} expected")
         return lift(v, t)
